@@ -22,6 +22,9 @@ CASES_QUICK = [
     ("PUT", "TDELETE", "NONE", "held"), ("GETD", "TDELETE", "NONE", "held"), ("DELC", "TDELETE", "NONE", "held"),
     # a channel asked for again while (or after) it is deleted: what the deletion discards does not come back
     ("DELC", "GETC", "NONE", "backlog"), ("DELC", "GETC", "NONE", "held"),
+    # a topic that is in the map but has not been started (GetTopic asking the nsqlookupds, LoadMetadata): channels are
+    # created, publishers find it -- and everything it accepted reaches every channel there is when it starts
+    ("GETC", "GETD", "START", "unstarted"), ("PUT", "GETC", "START", "unstarted"),
 ]
 CASES_THOROUGH = CASES_QUICK + [
     ("PUT", "GETD", "DELC", "held"), ("PUT", "GETD", "DELC", "idle"), ("PUT", "GETD", "PAUSE", "held"),
@@ -32,6 +35,7 @@ CASES_THOROUGH = CASES_QUICK + [
     ("GETD", "DELC", "PUT", "idle"), ("PAUSE", "TDELETE", "NONE", "held"), ("UNPAUSE", "TEXIT", "PUT", "paused"),
     ("DELC", "GETC", "PUT", "backlog"), ("DELC", "GETC", "GETC", "backlog"), ("DELC", "GETC", "TEXIT", "backlog"),
     ("PUT", "GETC", "NONE", "nochan"),
+    ("PUT", "GETD", "START", "unstarted"), ("PAUSE", "GETC", "START", "unstarted"),
 ]
 
 VEC = ["m1c", "m2c", "m1d", "m2d", "m1tq", "m2tq", "m2acked", "m2failed", "c_in_map", "d_in_map", "paused", "mcount",
@@ -39,10 +43,10 @@ VEC = ["m1c", "m2c", "m1d", "m2d", "m1tq", "m2tq", "m2acked", "m2failed", "c_in_
 INVS = "OwedDelivered NoDup PausedHandsNothing CountMatches ExitKeeps"
 
 
-def cfg_text(a, b, c, sit, handshake=True, refresh=True, join=True, emit=True, invs=True):
+def cfg_text(a, b, c, sit, handshake=True, refresh=True, join=True, emit=True, invs=True, startgate=True):
     t = ('SPECIFICATION Spec\nCONSTANTS\n  OpA = "%s"\n  OpB = "%s"\n  OpC = "%s"\n  Situation = "%s"\n'
-         '  Handshake = %s\n  RefreshHonoursPause = %s\n  JoinShakes = %s\n'
-         % (a, b, c, sit, str(handshake).upper(), str(refresh).upper(), str(join).upper()))
+         '  Handshake = %s\n  RefreshHonoursPause = %s\n  JoinShakes = %s\n  StartGate = %s\n'
+         % (a, b, c, sit, str(handshake).upper(), str(refresh).upper(), str(join).upper(), str(startgate).upper()))
     if invs:
         t += "INVARIANTS %s\n" % INVS
     if emit:
@@ -116,6 +120,7 @@ def refute(ctx):
         ("join returns at once (as first found)", ("GETD", "GETD", "PUT", "idle"), dict(join=False), "OwedDelivered"),
         ("creator does not wait for the pump", ("PUT", "GETD", "NONE", "held"), dict(handshake=False), "OwedDelivered"),
         ("refresh ignores pause", ("PUT", "PAUSE", "GETD", "idle"), dict(refresh=False), "PausedHandsNothing"),
+        ("a channel created before Start() opens the queues", ("GETC", "GETD", "START", "unstarted"), dict(startgate=False), "OwedDelivered"),
     ]
     for what, (a, b, c, sit), kw, inv in wanted:
         cfg = "NsqdTopic_refute_%s_%s.cfg" % (inv, "_".join(sorted(kw)))
@@ -189,7 +194,7 @@ def classes(ops, kind):
     if kind == "blocked":
         return {"C08", "C05"} if ex else {"C08"}
     if kind == "lost":
-        return {"C01"}
+        return {"C01", "C16"} if "START" in ops else {"C01"}
     if kind == "lost-restart":
         return {"C05"}
     if kind == "dup":
@@ -255,12 +260,16 @@ def judge(ctx, prop, obs):
                 acked = (["m1"] if sit != "idle" else []) + (["m2"] if m2_acked else [])
                 for m in acked:
                     owed = ["c"] if (m == "m1" and sit in ("held", "paused", "backlog")) else (o["known_at_put"] if m == "m2" else [])
+                    if sit == "unstarted" and m in (o.get("acked_at_start") or []):
+                        # accepted before the topic was started: owed to every channel that was known to exist when Start() was called
+                        owed = sorted(set(owed) | set(o.get("known_at_start") or []))
                     for x in owed:
                         if x in deleted:
                             continue
                         if m not in (final.get(x) or []):
-                            bad.append(("lost", "%s was acknowledged when channel %s was known to exist, and %s never got it "
-                                        "(after unpausing and draining every channel: %s)" % (m, x, x, json.dumps(final))))
+                            bad.append(("lost", "%s was acknowledged %s channel %s was known to exist, and %s never got it "
+                                        "(after unpausing and draining every channel: %s)"
+                                        % (m, "before the topic was started, at which moment" if sit == "unstarted" else "when", x, x, json.dumps(final))))
                 for x, bodies in final.items():
                     bodies = bodies or []
                     if len(set(bodies)) != len(bodies):
